@@ -17,7 +17,7 @@ PROP = Prop(
     "C15",
     rule=(
         "Hypothesis: step size, number of steps and a burn interval placed relative to the step grid (inside one step, spanning "
-        "several, starting and/or ending exactly on a boundary; whole-second configuration times), both thrust frames of "
+        "several, starting and/or ending exactly on a boundary, incl. offsets of 675 s that are exact in Julian-date arithmetic; whole-second configuration times; in a third of the cases a second thrust interval of the same target follows; orbit radius 7000..42164 km), both thrust frames of "
         "finite_burn (ECI, NTW) and both finite_maneuver types (spiral, plane change), accelerations 1e-7..1e-5 km/s^2, two-body "
         "and perturbed truth; the real Scenario is run (truth only) on the in-process Ray double with the event in the "
         "configuration, so the Julian-date conversion of the burn times is included. Non-trivial = end time not on the step grid, "
@@ -39,9 +39,15 @@ POS_TOL, VEL_TOL = 2e-6, 2e-9
 @st.composite
 def _cases(draw):
     t0 = draw(eop_instants(margin_days=3))
-    dt = draw(st.sampled_from([10, 30, 60, 120, 300]))
+    dt = draw(st.sampled_from([10, 30, 60, 120, 300, 45, 75, 135, 225, 675]))
     n = draw(st.integers(4, 8))
     mode = draw(st.sampled_from(["inside", "span", "start_on", "end_on", "both_on", "free", "free"]))
+    if 675 % dt == 0:
+        # offsets that are multiples of 675 s (= 86400/128) survive the Julian-date round trip exactly, so only there does a
+        # configured time coincide *exactly* with a step boundary; make sure such a boundary lies inside the run
+        n = max(n, 675 // dt + 1)
+        n = min(n, 16)
+        mode = draw(st.sampled_from(["end_exact", "start_exact", "end_exact", mode])) if 675 // dt < n else mode
     if mode == "inside":
         k = draw(st.integers(0, n - 2))
         a = k * dt + draw(st.integers(1, dt - 2))
@@ -62,6 +68,12 @@ def _cases(draw):
         a = draw(st.integers(max(1, b - 3 * dt), b - 1))
         if a % dt == 0:
             a += 1 if a + 1 < b else 0
+    elif mode == "end_exact":
+        b = 675
+        a = b - draw(st.integers(1, min(674, 3 * dt)))
+    elif mode == "start_exact":
+        a = 675
+        b = a + draw(st.integers(1, (n - 675 // dt) * dt - 1))
     elif mode == "both_on":
         k = draw(st.integers(1, n - 2))
         a = k * dt
@@ -73,8 +85,22 @@ def _cases(draw):
     mag = draw(st.sampled_from([1e-7, 1e-6, 1e-5]))
     d = draw(st.sampled_from([(1, 0, 0), (0, 1, 0), (0, 0, 1), (1, 1, 1), (-1, 0.5, 0)]))
     model = draw(st.sampled_from(["two_body", "two_body", "special_perturbations"]))
-    return {"start": iso(t0), "dt": dt, "n": n, "ts": a, "te": b, "kind": kind, "mag": mag, "dir": list(d), "model": model, "mode": mode,
+    second = None
+    if draw(st.sampled_from([False, False, True])) and b + 2 <= n * dt - 1:
+        # a second thrust interval of the same target, after the first one (possibly queued while the first is still on)
+        a2 = draw(st.one_of(st.just(b), st.integers(b, min(n * dt - 2, b + 2 * dt))))  # incl. starting when the first ends
+        b2 = draw(st.integers(a2 + 1, min(n * dt - 1, a2 + 3 * dt)))
+        second = {"ts": a2, "te": b2, "kind": draw(st.sampled_from(["burn_eci", "burn_ntw", "spiral", "plane_change"])),
+                  "mag": draw(st.sampled_from([1e-7, 1e-6, 1e-5])), "dir": list(draw(st.sampled_from([(1, 0, 0), (0, 1, 0), (0, 0, 1)])))}
+    # orbit radius matters: the higher the orbit, the longer the integrator's internal steps (a whole scenario step at GEO)
+    r = draw(st.sampled_from([7000.0, 9000.0, 9500.0, 26560.0, 42164.0, 42164.0]))
+    return {"start": iso(t0), "dt": dt, "n": n, "r": r, "ts": a, "te": b, "kind": kind, "mag": mag, "dir": list(d), "model": model, "mode": mode, "second": second,
             "integrator": draw(st.sampled_from(["RK45", "DOP853"]))}
+
+
+def _burns(c):
+    first = {k: c[k] for k in ("ts", "te", "kind", "mag", "dir")}
+    return [first] + ([c["second"]] if c.get("second") else [])
 
 
 def _thrust(case, state):
@@ -96,17 +122,18 @@ def _reference(case, x0, natural):
     """States at every step boundary from a split integration with thrust on exactly inside [ts, te]."""
     from scipy.integrate import solve_ivp
 
-    dt, n, ts, te = case["dt"], case["n"], case["ts"], case["te"]
-    marks = sorted({k * dt for k in range(n + 1)} | {ts, te})
+    dt, n = case["dt"], case["n"]
+    burns = _burns(case)
+    marks = sorted({k * dt for k in range(n + 1)} | {b["ts"] for b in burns} | {b["te"] for b in burns})
     out = {0: np.array(x0, dtype=float)}
     x = np.array(x0, dtype=float)
     for a, b in zip(marks[:-1], marks[1:]):
-        on = ts <= a and b <= te
+        on = [bb for bb in burns if bb["ts"] <= a and b <= bb["te"]]
 
         def f(t, y, _on=on):
             acc = natural(t, y)
-            if _on:
-                acc = acc + _thrust(case, y)
+            for bb in _on:
+                acc = acc + _thrust(bb, y)
             return np.concatenate([y[3:], acc])
 
         sol = solve_ivp(f, (float(a), float(b)), x, method="DOP853", rtol=1e-12, atol=1e-14)
@@ -123,15 +150,18 @@ def scenario_burn(c, rec):
 
     t0 = parse(c["start"])
     dt, n, ts, te = c["dt"], c["n"], c["ts"], c["te"]
-    x0 = kit.circular_state_over(10.0, 20.0, t0, 9000.0 if c["model"] == "two_body" else 9500.0, heading_deg=50.0)
+    x0 = kit.circular_state_over(10.0, 20.0, t0, c.get("r", 9000.0 if c["model"] == "two_body" else 9500.0), heading_deg=50.0)
     when = lambda s: (t0 + timedelta(seconds=s)).strftime("%Y-%m-%dT%H:%M:%S.000Z")  # noqa: E731
-    ev = {"scope": "agent_propagation", "scope_instance_id": TID, "start_time": when(ts), "end_time": when(te), "planned": False}
-    if c["kind"].startswith("burn"):
-        ev.update(event_type="finite_burn", acc_vector=[c["mag"] * x for x in c["dir"]], thrust_frame="eci" if c["kind"] == "burn_eci" else "ntw")
-    else:
-        ev.update(event_type="finite_maneuver", maneuver_mag=c["mag"], maneuver_type=c["kind"])
+    evs = []
+    for bb in _burns(c):
+        ev = {"scope": "agent_propagation", "scope_instance_id": TID, "start_time": when(bb["ts"]), "end_time": when(bb["te"]), "planned": False}
+        if bb["kind"].startswith("burn"):
+            ev.update(event_type="finite_burn", acc_vector=[bb["mag"] * x for x in bb["dir"]], thrust_frame="eci" if bb["kind"] == "burn_eci" else "ntw")
+        else:
+            ev.update(event_type="finite_maneuver", maneuver_mag=bb["mag"], maneuver_type=bb["kind"])
+        evs.append(ev)
     cfg = kit.scenario_config(t0, t0 + timedelta(seconds=(n + 1) * dt), dt, [kit.engine(1, [kit.ground_sensor(SID, 10.0, 20.0)], [kit.eci_target(TID, x0)])],
-                              truth_only=True, model=c["model"], integrator=c["integrator"], events=[ev],
+                              truth_only=True, model=c["model"], integrator=c["integrator"], events=evs,
                               geopotential={"model": "egm96.txt", "degree": 2, "order": 0})
     spans = (te - 1) // dt - ts // dt + 1 if te > ts else 1
     if te % dt != 0 or spans >= 2:
@@ -139,6 +169,8 @@ def scenario_burn(c, rec):
     rec.label("mode:" + c["mode"])
     rec.label(c["kind"])
     rec.label(c["model"])
+    rec.label("radius:%d" % c.get("r", 9000))
+    rec.label(("two_intervals_touching" if c["second"]["ts"] == te else "two_intervals") if c.get("second") else "one_interval")
     sc = kit.build(cfg)
     tgt = sc.target_agents[TID]
     if c["model"] == "two_body":
@@ -169,5 +201,5 @@ def scenario_burn(c, rec):
             burn_s = te - ts
             raise Violation(
                 "burn_interval",
-                f"after step {k} (epoch {k * dt}s) the truth state differs from the reference with thrust only in [{ts},{te}]s by {dp:.3e} km, "
+                f"after step {k} (epoch {k * dt}s) the truth state differs from the reference with thrust only in [{ts},{te}]s{' and [%d,%d]s (%s)' % (c['second']['ts'], c['second']['te'], c['second']['kind']) if c.get('second') else ''} by {dp:.3e} km, "
                 f"{dv:.3e} km/s (step {dt}s, {c['kind']} {c['mag']!r} km/s^2, {c['model']}/{c['integrator']}; a*(te-ts) = {c['mag'] * burn_s:.3e} km/s)")
